@@ -565,3 +565,68 @@ def group_info(pattern: str, flags: int = 0) -> Dict[str, Any]:
     walk(tree, True)
     may -= must
     return {"names": names, "must": must, "may": may, "groups": tree.state.groups - 1}
+
+
+def find_containing(nfa: NFA, word: str, alphabet: Sequence[str], lower: bool = False, max_states: int = 500_000):
+    """Search for a string accepted by `nfa` that CONTAINS `word` (fed through
+    str.lower() per character when `lower`).  Returns (witness | None, states)."""
+    ac = AC([word])
+    img: Dict[str, str] = {ch: (ch.lower() if lower else ch) for ch in alphabet}
+    relevant = [ch for ch in alphabet if any(c in ac.alphabet for c in img[ch])]
+    other = [ch for ch in alphabet if ch not in relevant]
+    choice: Dict[Any, List[str]] = {}
+
+    def chars_for(p: Pred) -> List[str]:
+        c = choice.get(p.key)
+        if c is None:
+            c = [ch for ch in relevant if p.matches(ch)]
+            for ch in other:
+                if p.matches(ch):
+                    c.append(ch)
+                    break
+            choice[p.key] = c
+        return c
+
+    start = (nfa.start, 0, 0, False)
+    parent = {start: (None, "")}
+    dq = deque([start])
+    while dq:
+        st = dq.popleft()
+        q, a, ph, seen = st
+        if q == nfa.accept and seen:
+            out = []
+            cur = st
+            while cur is not None:
+                par, ch = parent[cur]
+                out.append(ch)
+                cur = par
+            return "".join(reversed(out)), len(parent)
+        for kind, pred, t in nfa.edges[q]:
+            if kind == EPS:
+                nxt = (t, a, ph, seen)
+            elif kind == BOL:
+                if ph != 0:
+                    continue
+                nxt = (t, a, 0, seen)
+            elif kind == EOL:
+                nxt = (t, a, 2, seen)
+            else:
+                if ph == 2:
+                    continue
+                for ch in chars_for(pred):
+                    a2, s2 = a, seen
+                    for c in img[ch]:
+                        a2 = ac.step(a2, c)
+                        if ac.out[a2]:
+                            s2 = True
+                    nxt = (t, a2 if not s2 else 0, 1, s2)
+                    if nxt not in parent:
+                        parent[nxt] = (st, ch)
+                        dq.append(nxt)
+                continue
+            if nxt not in parent:
+                parent[nxt] = (st, "")
+                dq.append(nxt)
+        if len(parent) > max_states:
+            raise AnalysisError("product automaton exceeds the state budget")
+    return None, len(parent)
